@@ -616,59 +616,66 @@ pub mod pool {
         ResumeRoot,
     }
 
-    fn enabled(st: &State) -> Vec<Action> {
-        let mut v = Vec::new();
-        // resumes first (they are "the running thread continues" of the guidance's canonical order)
+    /// Called with the lock held by the actor that yields.
+    /// The enabled actions are, in canonical order: resume root, resume worker w (ascending), start task t on worker w
+    /// (ascending t, then ascending w). They are counted, not materialised: a region may hold tens of thousands of tasks.
+    fn pick_next(st: &mut State) {
+        let mut resumes: Vec<Action> = Vec::new();
         if let Some(r) = st.root_wait {
             if st.regions.get(&r).map(|x| x.remaining == 0).unwrap_or(true) {
-                v.push(Action::ResumeRoot);
+                resumes.push(Action::ResumeRoot);
             }
         }
+        let mut serving: Vec<usize> = Vec::new();
         for w in 0..st.waits.len() {
             if st.serving[w] {
+                serving.push(w);
                 if let Some(r) = st.waits[w].last() {
                     if st.regions.get(r).map(|x| x.remaining == 0).unwrap_or(true) {
-                        v.push(Action::Resume(w));
+                        resumes.push(Action::Resume(w));
                     }
                 }
             }
         }
-        for t in st.pending.keys() {
-            for w in 0..st.waits.len() {
-                if st.serving[w] {
-                    v.push(Action::Start(*t, w));
-                }
-            }
-        }
-        v
-    }
-
-    /// Called with the lock held by the actor that yields.
-    fn pick_next(st: &mut State) {
-        let acts = enabled(st);
-        if acts.is_empty() {
+        let n_pending = st.pending.len();
+        let total = resumes.len() + n_pending * serving.len();
+        if total == 0 {
             st.current = None;
             return;
         }
         let mut pick = 0;
-        if acts.len() > 1 {
+        if total > 1 {
             if st.pos < st.prefix.len() {
                 pick = st.prefix[st.pos];
-                if pick >= acts.len() {
-                    st.diverged = Some(format!("choice point {}: prefix asks for alternative {} of {}", st.pos, pick, acts.len()));
+                if pick >= total {
+                    st.diverged = Some(format!("choice point {}: prefix asks for alternative {} of {}", st.pos, pick, total));
                     pick = 0;
                 }
             } else {
                 pick = match st.policy {
                     0 => 0,
-                    1 => acts.len() - 1,
-                    k => (k * st.pos + 1) % acts.len(),
+                    1 => total - 1,
+                    k => (k * st.pos + 1) % total,
                 };
             }
             st.pos += 1;
-            st.choices.push((pick, acts.len()));
+            st.choices.push((pick, total));
         }
-        match acts[pick] {
+        let action = if pick < resumes.len() {
+            resumes[pick]
+        } else {
+            let idx = pick - resumes.len();
+            let (ti, w) = (idx / serving.len(), serving[idx % serving.len()]);
+            let t = if ti == 0 {
+                *st.pending.keys().next().unwrap()
+            } else if ti + 1 == n_pending {
+                *st.pending.keys().next_back().unwrap()
+            } else {
+                *st.pending.keys().nth(ti).unwrap()
+            };
+            Action::Start(t, w)
+        };
+        match action {
             Action::ResumeRoot => {
                 st.root_wait = None;
                 st.current = Some(Actor::Root);
